@@ -85,6 +85,30 @@ static void op_tgsw(const V &a, V &r) {
         tGswSymDecrypt(res, g, key, (int32_t) v[(size_t) p.k * p.N]);
         for (int j = 0; j < p.N; j++) r.push_back(res->coefs[j]);
         delete_IntPolynomial(res); delete_TGswKey(key);
+    } else if (opc == 6) {   // tGswExternProduct: out of place; the accumulator is an input
+        TLweSample *acc = new_TLweSample(p.tp), *res = new_TLweSample(p.tp); fill_tlwe(acc, p, v);
+        for (int i = 0; i <= p.k; i++) for (int j = 0; j < p.N; j++) res->a[i].coefsT[j] = 0x1234567;
+        tGswExternProduct(res, g, acc, p.gp); dump_tlwe(res, p, r);
+        bool same = true; for (int i = 0; i <= p.k; i++) for (int j = 0; j < p.N; j++) if (acc->a[i].coefsT[j] != (int32_t) v[(size_t) i * p.N + j]) same = false;
+        r.push_back(same ? 1 : 0); delete_TLweSample(res); delete_TLweSample(acc);
+    } else if (opc == 7) {   // tGswMulByXaiMinusOne
+        TGswSample *g2 = new_TGswSample(p.gp); tGswMulByXaiMinusOne(g2, (int32_t) v[0], g, p.gp); dump_tgsw(g2, p, r); delete_TGswSample(g2);
+    } else if (opc == 8) {   // tGswClear then tGswAddH: the gadget of the message 1
+        tGswClear(g, p.gp); tGswAddH(g, p.gp); dump_tgsw(g, p, r);
+    } else if (opc == 9) {   // the same in the FFT domain, converted back
+        TGswSampleFFT *gf = new_TGswSampleFFT(p.gp); tGswFFTClear(gf, p.gp); tGswFFTAddH(gf, p.gp); tGswFromFFTConvert(g, gf, p.gp); dump_tgsw(g, p, r); delete_TGswSampleFFT(gf);
+    } else if (opc == 10 || opc == 11) {   // acc += poly * row 0 of g, component-wise: tLweAddMulRTo / through tLweFFTAddMulRTo
+        TLweSample *acc = new_TLweSample(p.tp); fill_tlwe(acc, p, v); const ll *w = v + p.rowsz();
+        IntPolynomial *ip = new_IntPolynomial(p.N); for (int j = 0; j < p.N; j++) ip->coefs[j] = (int32_t) w[j];
+        if (opc == 10) tLweAddMulRTo(acc, ip, &g->all_sample[0], p.tp);
+        else {
+            TLweSampleFFT *af = new_TLweSampleFFT(p.tp), *sf = new_TLweSampleFFT(p.tp); LagrangeHalfCPolynomial *pf = new_LagrangeHalfCPolynomial(p.N);
+            TLweSample *tmp = new_TLweSample(p.tp);
+            tLweToFFTConvert(sf, &g->all_sample[0], p.tp); IntPolynomial_ifft(pf, ip); tLweFFTClear(af, p.tp); tLweFFTAddMulRTo(af, pf, sf, p.tp);
+            tLweFromFFTConvert(tmp, af, p.tp); tLweAddTo(acc, tmp, p.tp);
+            delete_TLweSample(tmp); delete_LagrangeHalfCPolynomial(pf); delete_TLweSampleFFT(sf); delete_TLweSampleFFT(af);
+        }
+        dump_tlwe(acc, p, r); delete_IntPolynomial(ip); delete_TLweSample(acc);
     } else if (opc == 5) {   // FFT image of the rows, converted back
         TGswSampleFFT *gf = new_TGswSampleFFT(p.gp); TGswSample *g2 = new_TGswSample(p.gp);
         tGswToFFTConvert(gf, g, p.gp); tGswFromFFTConvert(g2, gf, p.gp); dump_tgsw(g2, p, r);
